@@ -26,9 +26,13 @@ val add : nat -> nat -> nat
 
 val sub : nat -> nat -> nat
 
+val eqb : nat -> nat -> bool
+
 val leb : nat -> nat -> bool
 
-val eqb : bool -> bool -> bool
+val ltb : nat -> nat -> bool
+
+val eqb0 : bool -> bool -> bool
 
 module Nat :
  sig
@@ -70,6 +74,8 @@ val firstn : nat -> 'a1 list -> 'a1 list
 val skipn : nat -> 'a1 list -> 'a1 list
 
 val seq : nat -> nat -> nat list
+
+val repeat : 'a1 -> nat -> 'a1 list
 
 type positive =
 | XI of positive
@@ -364,6 +370,8 @@ val utf8_encode : n list -> n list
 val other_ranges : (n * n) list
 
 val whitespace_ranges : (n * n) list
+
+val letter_ranges : (n * n) list
 
 val hexd : n -> n
 
@@ -683,6 +691,124 @@ val code_of : bline list -> n option
 val tests_from : block list -> nat -> text option -> ptest list
 
 val cram_tests_of : block list -> ptest list
+
+val is_white : n -> bool
+
+val is_letter : n -> bool
+
+val bT : n
+
+val drop_while : (n -> bool) -> text -> text
+
+val trim_start : text -> text
+
+val trim_end : text -> text
+
+val trim : text -> text
+
+val count_bt : text -> nat
+
+val split_at_brace : text -> text * text option
+
+val extract_code_block_start : text -> ((nat * text) * text) option
+
+val closes : nat -> text -> bool
+
+val sCRUT : text
+
+val dASHES : text
+
+val inner_config : text -> text option
+
+type token =
+| TLine of nat * text
+| TFront of text list * text list
+| TVerb of nat * text * text list
+| TTest of text option * text list * (nat * text) list * text list
+
+type mstate =
+| Top of bool
+| InFront of text list * text list
+| InVerb of nat * nat * text * text list
+| InTest of nat * text option * text list * (nat * text) list * text list
+
+val mstep : mstate -> nat -> text -> mstate * token list
+
+val mflush : mstate -> token list
+
+val mrun : mstate -> nat -> text list -> token list
+
+val md_tokens : text list -> token list
+
+val drop_hashes : text -> text
+
+val extract_title : text -> text option
+
+val join_nl : text list -> text
+
+type mtest = { mt_test : ptest; mt_cfg : text option }
+
+val feed_code : (text -> bool) -> lp -> (nat * text) list -> lp lres
+
+val last_idx : (nat * text) list -> nat
+
+val parse_tokens :
+  (text -> bool) -> (text list -> bool) -> (text -> bool) -> token list -> lp
+  -> text list -> text option list -> (lp * text option list) lres
+
+val parse_md :
+  (text -> bool) -> (text list -> bool) -> (text -> bool) -> text list ->
+  mtest list lres
+
+type elem =
+| EFront of text list
+| EProse of text
+| EHeading of nat * text
+| EBlank
+| EForeign of nat * text * text list
+| EScrut of nat * text option * text list
+   * ((text * text list) * bline list) option
+
+val fence : nat -> text
+
+val hashes : nat -> text
+
+val render_body : bline -> text
+
+val render_elem : elem -> text list
+
+val render_md : elem list -> text list
+
+type tstate = { ts_para : text list; ts_title : text option }
+
+val title_line : tstate -> text -> tstate
+
+val md_tests_from : elem list -> nat -> tstate -> mtest list
+
+val md_tests_of : elem list -> mtest list
+
+val not_fence_start : text -> bool
+
+val no_nl : text -> bool
+
+val md_exp_ok : (text -> bool) -> nat -> text -> bool
+
+val md_body_ok : (text -> bool) -> nat -> bline list -> bool
+
+val lang_ok : text -> bool
+
+val cfg_text_ok : (text -> bool) -> text -> bool
+
+val elem_ok :
+  (text -> bool) -> (text list -> bool) -> (text -> bool) -> bool -> elem ->
+  bool
+
+val wf_md_from :
+  (text -> bool) -> (text list -> bool) -> (text -> bool) -> bool -> elem
+  list -> bool
+
+val wf_md :
+  (text -> bool) -> (text list -> bool) -> (text -> bool) -> elem list -> bool
 
 val make_exp : bool -> bool -> (nat -> bool) -> nat exp
 
